@@ -12,8 +12,12 @@ import (
 type FS struct {
 	Disks map[string]*Disk
 	Opens int
+	// Removes counts files deleted by Remove.
+	Removes int
 	// Creates counts files brought into existence by OpenFile(O_CREATE).
 	Creates int
+
+	gone map[string]*Disk // removed paths
 }
 
 func NewFS() *FS { return &FS{Disks: map[string]*Disk{}} }
@@ -60,7 +64,12 @@ func OpenFile(name string, flag int, perm os.FileMode) (*File, error) {
 		if flag&os.O_CREATE == 0 {
 			return nil, &fs.PathError{Op: "open", Path: name, Err: fs.ErrNotExist}
 		}
-		d = NewDisk(name)
+		if g, ok := fsys.gone[name]; ok {
+			d = g
+			delete(fsys.gone, name)
+		} else {
+			d = NewDisk(name)
+		}
 		fsys.Disks[name] = d
 		fsys.Creates++
 	} else if flag&os.O_EXCL != 0 && flag&os.O_CREATE != 0 {
@@ -70,6 +79,31 @@ func OpenFile(name string, flag int, perm os.FileMode) (*File, error) {
 		d.Truncate(0)
 	}
 	return &File{d: d, append: flag&os.O_APPEND != 0}, nil
+}
+
+// Remove mirrors os.Remove for the simulated file system.
+func Remove(name string) error {
+	yield("fs:remove")
+	fsys := CurrentFS
+	if fsys == nil {
+		return os.Remove(name)
+	}
+	if _, ok := fsys.Disks[name]; !ok {
+		return &fs.PathError{Op: "remove", Path: name, Err: fs.ErrNotExist}
+	}
+	// the disk object stands for the path: it keeps its fault plan, call counters and mutation log, and
+	// comes back (empty) if the path is created again
+	d := fsys.Disks[name]
+	if d.size != 0 {
+		d.Truncate(0)
+	}
+	if fsys.gone == nil {
+		fsys.gone = map[string]*Disk{}
+	}
+	fsys.gone[name] = d
+	delete(fsys.Disks, name)
+	fsys.Removes++
+	return nil
 }
 
 var errClosed = fmt.Errorf("sim: file already closed")
